@@ -20,6 +20,8 @@ ALPHAS = {
     'FULL_NO3': space.FULL_NO3,
     'CLK': space.C + space.L + space.K + space.alphabet('AND'),
     'KO': KO + space.K + space.alphabet('AND', 'GT', 'LNOT'),
+    'LU': space.L + space.U,
+    'CK': space.C + space.K + KO,
 }
 BENCH_TYPES = {'INPUT', 'NOT', 'AND', 'OR', 'NAND', 'NOR', 'XOR', 'NXOR', 'IFF'}
 
@@ -40,6 +42,14 @@ def plan(tier):
         for tk in space.tasks(n, k, ALPHAS[a], split):
             tk.update(alpha=a, pol=pol, nblocks=nb)
             t.append(tk)
+    # users-first storage for two-gate circuits over the one-sided gate types (a converter that looks at its
+    # operand's gate may meet it unconverted) and over comparisons + constants
+    for a in ('LU', 'CK'):
+        for tk in space.tasks(2, 2, ALPHAS[a], 1):
+            tk.update(alpha=a, pol='core', nblocks=0, variant='scrambled')
+            t.append(tk)
+    for const in ('ALWAYS_TRUE', 'ALWAYS_FALSE'):
+        t.append({'kind': 'ncb', 'const': const})
     for pat in ('cmp', 'lr', 'xor-nor', 'or3'):
         for L in space.DEEP_LENGTHS[tier]:
             for st in ('fwd', 'rev'):
@@ -56,7 +66,7 @@ def describe(tier):
     return {
         'rule': 'E1: every circuit of F(n>=1,k,A) x output policy x block placement (no block; one block over every '
         'non-empty subset of gate nodes; with nblocks=2 every ordered pair of such blocks) -> into_bench(), and '
-        'into_graphviz_digraph(as_bench=True) once per circuit; for last-gate outputs without blocks a second conversion after removing and re-adding the rewritten sink gate. KO family = constants carrying 1-2 operands. Deep: chains of 1200/3000 (7000) comparison / L*R* / mixed gates, stored operands-first and users-first. Generated-name collision: per circuit, a second conversion after adding a user gate named like each helper the first conversion invented (random suffix stripped). E2 (no state merging): every history of public mutator calls (the C02 menu without compositions: construction, removal, renaming, interface, replace_inputs, blocks, into_bench, copy, replace_subcircuit) up to the stated length from 5 start states (incl. one holding every non-bench shape), each followed by into_bench(), compared with the netlist just before the conversion. '
+        'into_graphviz_digraph(as_bench=True) once per circuit; for last-gate outputs without blocks a second conversion after removing and re-adding the rewritten sink gate. KO family = constants carrying 1-2 operands. NCB: a constant feeding a three-gate path with one block over every gate subset containing the constant (non-convex blocks), 2 x 32 typings. F(2,2,L*/R*+unary) and F(2,2,comparisons+constants) with users-first storage. Deep: chains of 1200/3000 (7000) comparison / L*R* / mixed gates, stored operands-first and users-first. Generated-name collision: per circuit, a second conversion after adding a user gate named like each helper the first conversion invented (random suffix stripped). E2 (no state merging): every history of public mutator calls (the C02 menu without compositions: construction, removal, renaming, interface, replace_inputs, blocks, into_bench, copy, replace_subcircuit) up to the stated length from 5 start states (incl. one holding every non-bench shape), each followed by into_bench(), compared with the netlist just before the conversion. '
         'distinct = distinct (types before, helper gates added) outcomes.',
         'bounds': {
             'quick': 'F(1,<=2,FULL), F(2,1,FULL) all policies + block pairs; F(2,2,FULL), F(3,1,FULL), F(2,2,KO) core '
@@ -253,6 +263,22 @@ def check_deep(acc, pattern, L, storage):
     acc.outcome('conv', ('deep', pattern, L, storage, len(rnet.gates) - len(net.gates)))
 
 
+def check_ncb(acc, const):
+    """Non-convex blocks around a constant: g0 = constant, g1 = T1(g0, x0), g2 = U(g1), g3 = T2(g2, x1); one
+    block over every subset of the gates that contains g0 (the block's own inputs then depend on the constant
+    through gates outside the block)."""
+    for t1 in ('AND', 'OR', 'XOR', 'GT'):
+        for u in ('NOT', 'IFF'):
+            for t2 in ('AND', 'OR', 'XOR', 'LEQ'):
+                gates = ((const, ()), (t1, (2, 0)), (u, (3,)), (t2, (4, 1)))
+                labs = space.labels(2, 4)
+                for r in range(0, 4):
+                    for rest in itertools.combinations(labs[3:], r):
+                        acc.states += 1
+                        check_one(2, gates, (5,), [[labs[2]] + list(rest)], acc)
+                        check_one(2, gates, (5, 3), [[labs[2]] + list(rest), [labs[5]]], acc)
+
+
 def check_graphviz(n, gates, outs, acc):
     case = lambda: {**space.spec_json(n, gates, outs), 'graphviz': True}  # noqa: E731
     c = space.build(n, gates, outs)
@@ -297,7 +323,7 @@ class _NeverSeen:
         pass
 
 
-HIST_STARTS = ('S1', 'S2', 'S4', 'S5', 'S6', 'S7')
+HIST_STARTS = ('S1', 'S2', 'S4', 'S5', 'S6', 'S7', 'S9')
 
 
 def hist_monitor(c, start_name, hist, acc):
@@ -309,6 +335,8 @@ def hist_monitor(c, start_name, hist, acc):
         ref = net.tables()
     except Exception:  # noqa: BLE001
         return
+    if net.topo() is None:
+        return  # cyclic / dangling: only a broken library gets here, and C02 reports it
     if not net.inputs:
         acc.count('state_without_inputs_skipped')  # the property speaks about circuits with at least one input
         return
@@ -345,6 +373,8 @@ def hist_monitor(c, start_name, hist, acc):
 def run_task(task, acc):
     if task.get('kind') == 'deep':
         return check_deep(acc, task['pattern'], task['L'], task['storage'])
+    if task.get('kind') == 'ncb':
+        return check_ncb(acc, task['const'])
     if task.get('kind') == 'hist':
         from vmc import history
 
